@@ -28,7 +28,13 @@ def run_in_worktree(patch, pid, wt):
     if r.returncode:
         return "DOES-NOT-APPLY", "", r.stderr.strip()[:100]
     env = dict(os.environ, VERIF_REPLAYS=os.path.join(wt + "_replays"))
-    p = subprocess.run(["./check", pid, "--tier", "quick", "--no-evidence", "--root", wt], capture_output=True, text=True, cwd=VERIF, env=env)
+    try:
+        # (a change that makes every obligation of a check slow - C06-m13 - must not hold up a shard for good)
+        p = subprocess.run(["./check", pid, "--tier", "quick", "--no-evidence", "--root", wt], capture_output=True, text=True, cwd=VERIF, env=env, timeout=int(os.environ.get("MX_TIMEOUT", "2400")))
+    except subprocess.TimeoutExpired:
+        subprocess.run(["pkill", "-f", f"--root {wt}"], capture_output=True)
+        subprocess.run(["git", "-C", wt, "reset", "-q", "--hard", head], check=True)
+        return "NO-VERDICT(check stopped after MX_TIMEOUT)", "", "0 violation line(s)"
     subprocess.run(["git", "-C", wt, "reset", "-q", "--hard", head], check=True)
     return verdict_of(p)
 
